@@ -137,11 +137,13 @@ func (k Keeper) burnCoins(ctx sdk.Context, state *types.State) {
 		ctx.Logger().Error("burn coins error", "state", state, "error", err.Error())
 	} else {
 		k.Logger(ctx).Debug("Coins burned", "coins", toSend)
-		defer telemetry.SetGaugeWithLabels(
-			[]string{types.ModuleName, "coin_send", types.BurnDestination},
-			float32(toSend.AmountOf(types.DenomToTrace).Int64()),
-			[]metrics.Label{telemetry.NewLabel("denom", types.DenomToTrace)},
-		)
+		if toSend.AmountOf(types.DenomToTrace).IsInt64() {
+			defer telemetry.SetGaugeWithLabels(
+				[]string{types.ModuleName, "coin_send", types.BurnDestination},
+				float32(toSend.AmountOf(types.DenomToTrace).Int64()),
+				[]metrics.Label{telemetry.NewLabel("denom", types.DenomToTrace)},
+			)
+		}
 		state.Remains = change
 	}
 }
@@ -153,11 +155,13 @@ func (k Keeper) sendCoinsToModuleAccount(ctx sdk.Context, state *types.State) {
 		ctx.Logger().Error("send coins to module account dst error", "accountId", state.Account.Id, "error", err.Error())
 	} else {
 		k.Logger(ctx).Debug("coins sent to module account dst", "accountId", state.Account.Id, "toSend", toSend.String())
-		defer telemetry.SetGaugeWithLabels(
-			[]string{types.ModuleName, "coin_send", state.Account.Id},
-			float32(toSend.AmountOf(types.DenomToTrace).Int64()),
-			[]metrics.Label{telemetry.NewLabel("denom", types.DenomToTrace)},
-		)
+		if toSend.AmountOf(types.DenomToTrace).IsInt64() {
+			defer telemetry.SetGaugeWithLabels(
+				[]string{types.ModuleName, "coin_send", state.Account.Id},
+				float32(toSend.AmountOf(types.DenomToTrace).Int64()),
+				[]metrics.Label{telemetry.NewLabel("denom", types.DenomToTrace)},
+			)
+		}
 		state.Remains = change
 	}
 }
@@ -171,11 +175,13 @@ func (k Keeper) sendCoinsToBaseAccount(ctx sdk.Context, state *types.State) {
 		k.Logger(ctx).Error("send coins to base account dst error", "accountId", state.Account.Id, "toSend", toSend, "error", err.Error())
 	} else {
 		k.Logger(ctx).Debug("coins sent to base account dst", "accountId", state.Account.Id, "toSend", toSend)
-		defer telemetry.SetGaugeWithLabels(
-			[]string{types.ModuleName, "coin_send", state.Account.Id},
-			float32(toSend.AmountOf(types.DenomToTrace).Int64()),
-			[]metrics.Label{telemetry.NewLabel("denom", types.DenomToTrace)},
-		)
+		if toSend.AmountOf(types.DenomToTrace).IsInt64() {
+			defer telemetry.SetGaugeWithLabels(
+				[]string{types.ModuleName, "coin_send", state.Account.Id},
+				float32(toSend.AmountOf(types.DenomToTrace).Int64()),
+				[]metrics.Label{telemetry.NewLabel("denom", types.DenomToTrace)},
+			)
+		}
 		state.Remains = change
 	}
 }
